@@ -1046,7 +1046,10 @@ func (fc *FuncCtx) loopHead(fr *Frame, ci *cfgInfo, h *ssa.BasicBlock, st *State
 	k := fc.loopOrd[h]
 	invs := fc.spec.LoopInv[k]
 	if len(invs) == 0 {
-		unsupported("loop %d (block %d, %s) has no invariant", k, h.Index, v.fset.Position(h.Instrs[0].Pos()))
+		// a loop the contract says nothing about (typically one added after the contract was written): cut it with the trivial
+		// invariant - everything the loop may write is forgotten. Sound; obligations that needed more fail instead of the run
+		// stopping with an engine error.
+		v.notes[fmt.Sprintf("%s: loop %d (%s) has no invariant in the contract: cut with the trivial invariant (its write set is forgotten)", fc.key, k, v.fset.Position(h.Instrs[0].Pos()))] = true
 	}
 	for _, u := range fc.spec.LoopUse[k] {
 		if u.Where == "init" {
@@ -1854,6 +1857,29 @@ func (v *Verifier) checkWired(fc *FuncCtx) {
 					continue
 				}
 				x := strip(args[w.Arg])
+				if strings.HasPrefix(w.Source, "key:") {
+					// SOURCE `key:<string>`: the argument is a map lookup m[K] whose key is that string constant
+					// (keys[distrtypes.StoreKey]: which store a keeper is constructed over)
+					if ex, isEx := x.(*ssa.Extract); isEx {
+						x = ex.Tuple
+					}
+					lk, isLookup := x.(*ssa.Lookup)
+					if !isLookup {
+						why = fmt.Sprintf("the argument is not a map lookup: %s", x)
+						continue
+					}
+					kc, isConst := lk.Index.(*ssa.Const)
+					if !isConst || kc.Value == nil || kc.Value.Kind() != constant.String {
+						why = fmt.Sprintf("the lookup key is not a string constant: %s", lk.Index)
+						continue
+					}
+					if got := constant.StringVal(kc.Value); got != strings.TrimPrefix(w.Source, "key:") {
+						why = fmt.Sprintf("the lookup key is %q", got)
+						continue
+					}
+					ok, why = true, fmt.Sprintf("argument %d is %s", w.Arg, lk)
+					continue
+				}
 				if u, isLoad := x.(*ssa.UnOp); isLoad && u.Op == token.MUL {
 					x = u.X // the value of a variable: trace the variable
 				}
